@@ -144,7 +144,9 @@ def run_case(spec, ctx):
     feature_size = geo.min_feature(I, penv)
     h = 1e-3 * feature_size
     tol = geo.tolerances(E, penv)
-    if geo.condition_number(I, penv) > 15:
+    # (relative to the shape itself: a millimetre-sized shape next to the origin is well conditioned in float32)
+    small = geo.scale_of(I, penv, 0.0) < 0.5
+    if geo.condition_number(I, penv, 0.0 if small else 1.0) > 15:
         # float32 positions of a small shape far from the origin are not accurate to h
         ctx.event("skipped:ill-conditioned")
         return {"nontrivial": False, "classes": classes, "summary": {"skipped": "ill-conditioned"}}
@@ -283,6 +285,19 @@ def extra_cases(tier, seed):
                                           (I1, "bright", {"p": [[0.4]]})]):
         out.append({"dom": {"E": {"t": side, "a": I}, "kind": "boundary", "pvars": sorted(prows), "lattice": False, "far": False},
                     "prows": prows, "n": 4, "rng": 2 * (seed + j)})
+    # millimetre-sized shapes next to the origin (area below 1e-5), both corner orders, straight and slanted
+    for j, (o, c1, c2) in enumerate([([0.001, 0.0005], [0.001, 0.0035], [0.003, 0.0005]),        # clockwise
+                                     ([0.001, 0.0005], [0.003, 0.0005], [0.001, 0.0035]),        # counter-clockwise
+                                     ([-0.002, 0.001], [-0.001, 0.0035], [0.0005, 0.0]),         # clockwise, slanted
+                                     ([0.0, 0.0], [0.002, 0.0005], [-0.0005, 0.003])]):
+        for t_ in ("par", "tri"):
+            if t_ == "tri" and j in (0, 2):
+                c1, c2 = c2, c1
+            out.append({"dom": {"E": {"t": "boundary", "a": {"t": t_, "var": "x", "o": {"k": "const", "v": o}, "c1": {"k": "const", "v": c1},
+                                                             "c2": {"k": "const", "v": c2}}},
+                                "kind": "boundary", "pvars": [], "lattice": False, "far": False}, "prows": {}, "n": 16, "rng": 2 * (seed + j) + 1})
+    out.append({"dom": {"E": {"t": "boundary", "a": {"t": "circle", "var": "x", "c": C([0.001, -0.002]), "r": C([0.0015])}},
+                        "kind": "boundary", "pvars": [], "lattice": False, "far": False}, "prows": {}, "n": 16, "rng": 2 * seed + 1})
     L = [[0, 0], [3, 0], [3, 1], [1, 1], [1, 3], [0, 3]]
     for j, dup in enumerate((0, 2, 5)):
         out.append({"dom": {"E": {"t": "boundary", "a": {"t": "poly", "var": "x", "verts": L, "hole": None, "dup": dup}}, "kind": "boundary",
